@@ -191,6 +191,17 @@ func (l *Ledger) Check(w *World, gcComplete bool) *Violation {
 		}
 	}
 	if gcComplete {
+		// what was presented must also have been applied: the record is
+		// marked deleted, or lies beyond a truncation / in an unlinked file
+		view := loadFsck(w.FS, w.Cfg)
+		for e := range presented {
+			if w.Cfg.Primary == "cid" {
+				break
+			}
+			if pr, _ := view.findPrimary(e.Off); pr != nil && !pr.Deleted {
+				return violO("ledger", "ledger:not-applied", "location %d (size %d) (%s) was presented to the primary GC but its record (size %d) is still not marked deleted", e.Off, e.Size, why[e], pr.Size)
+			}
+		}
 		for e, n := range rec {
 			if presented[e] != n {
 				return violO("ledger", "ledger:missing", "location %d (%s) was recorded %d time(s) but presented to the primary GC %d time(s) after a complete cycle", e.Off, why[e], n, presented[e])
